@@ -129,4 +129,34 @@ def bound (steps : List Step) (chunks : List Bytes) : Nat :=
 def interp (steps : List Step) (path tmp : Name) (chunks : List Bytes) (f : Faults) (s : State) : M :=
   (interpUpTo steps path tmp chunks f (bound steps chunks) s).1
 
+/-! ### finite representative enumeration of post-crash images (driver op `fs.images`) -/
+
+def allMasks : Nat → List (List Bool)
+  | 0 => [[]]
+  | n + 1 => (allMasks n).flatMap (fun m => [false :: m, true :: m])
+
+def flipBytes (bs : Bytes) : Bytes := bs.map (fun b => b ^^^ 0xFF)
+
+/-- prefix lengths tried for an un-synced remainder of length `n` (all, if short) -/
+def prefixLens (n : Nat) : List Nat :=
+  if n ≤ 16 then List.range (n + 1) else [0, 1, 2, n / 2, n - 2, n - 1, n]
+
+/-- every subset of the pending directory operations × for the temp inode each chosen prefix length of
+    its un-synced bytes, once with the true bytes and once with the bytes flipped (garbage) -/
+def crashImages (m : M) : List State :=
+  let gs : List (Ino → Bytes) :=
+    match m.tmpH with
+    | none => [fun _ => []]
+    | some h =>
+      let p := (m.fs.ino h).pend
+      (prefixLens p.length).flatMap (fun l =>
+        [fun i => if i = h then p.take l else [], fun i => if i = h then flipBytes (p.take l) else []])
+  (allMasks m.fs.pending.length).flatMap (fun mk => gs.map (fun g => crashImage m.fs mk g))
+
+theorem crashImages_sound (m : M) : ∀ img ∈ crashImages m, Crash m.fs img := by
+  intro img h
+  simp only [crashImages, List.mem_flatMap, List.mem_map] at h
+  obtain ⟨mk, _, g, _, rfl⟩ := h
+  exact crashImage_crash _ _ _
+
 end Lungo.AtomicWrite
